@@ -91,6 +91,7 @@ fn run_stream<H: BuildHasher + Default + Clone>(a: &Args, sink: &mut Sink) -> se
             extra = serde_json::json!({"sizes": sizes});
         }
         "crash" => { let (n, mk) = if thorough { (6000, 40) } else { (700, 12) }; crash_stream::<H>(sink, &mut rng, &both, n, mk); }
+        "crash_mirror" => { let (n, mk) = if thorough { (5000, 40) } else { (600, 12) }; crash_mirror_stream::<H>(sink, &mut rng, &both, n, mk); }
         "c06" => random_stream::<H>(sink, &mut rng, &both, &weights_with(&[("sorted_vec", 120), ("sorted_iter", 150)]), n, l),
         "c08" => random_stream::<H>(sink, &mut rng, &both, &weights_with(&[("retain_mut", 90), ("retain", 50), ("iter_mut", 120), ("pop_if", 150)]), n, l),
         "c11" => random_stream::<H>(sink, &mut rng, &both, &weights_with(&[("push_increase", 300), ("push_decrease", 300)]), n, l),
